@@ -1,5 +1,6 @@
 import Driver.Codec
 import MW.Proto.Codec
+import MW.Proto.Nested
 /-!
 # Model driver: one JSON request per line on stdin, one JSON reply per line on stdout.
 
@@ -191,6 +192,22 @@ def handle (st : DState) (req : Json) : DState × Json :=
     match MW.Proto.decodeFields (bytesOf hex.toList) with
     | some fs => (st, Json.mkObj [("ok", .str (MW.Proto.toHex (MW.Proto.encodeFields fs))), ("fields", jNat fs.length)])
     | none => (st, Json.mkObj [("err", Json.mkObj [("kind", "Decode")])])
+  | "nested_roundtrip" =>
+    -- the typed, nested Lean codec against the schema regenerated from the sources: decode the bytes as
+    -- message type `type` (interned name index), re-encode the value tree
+    let hex := getStr req "hex"
+    let nib (c : Char) : Nat := if c.isDigit then c.toNat - 48 else if c.toNat ≥ 97 then c.toNat - 87 else c.toNat - 55
+    let rec bytesOfN : List Char → List UInt8
+      | a :: b :: rest => UInt8.ofNat (nib a * 16 + nib b) :: bytesOfN rest
+      | _ => []
+    let env : Nat → Option MW.Generated.MD := fun r => MW.Generated.schema.find? (fun m => m.name == r)
+    let bs := bytesOfN hex.toList
+    match env (getNatD req "type") with
+    | none => (st, Json.mkObj [("err", Json.mkObj [("kind", "UnknownType")])])
+    | some m =>
+      match MW.Proto.decodeNested env (bs.length + 1) m bs with
+      | some fs => (st, Json.mkObj [("ok", .str (MW.Proto.toHex (MW.Proto.encodeNested fs))), ("fields", jNat fs.size)])
+      | none => (st, Json.mkObj [("err", Json.mkObj [("kind", "Decode")])])
   | "tboot" =>
     let self := getStr req "self"
     let chainPrefix := getStr req "chain_prefix"
